@@ -105,6 +105,21 @@ theorem abf_accepted_safe (full mn : Int) (nv : Nat) (mf : Option (List Int)) (f
         obtain ⟨rfl, rfl⟩ := h
         exact ⟨by omega, by intro l hl; simp at hl⟩
 
+/-- multiple-walker metadynamics: with an accepted `replicaUpdateFrequency` the per-step test is defined, and the number of silent
+    periods is defined whatever `newHillFrequency` is — zero (no hills of one's own, only reading the others') included. -/
+theorem meta_replicas_never_trap (u : Int) (f un : Nat) (it : Int) (h : metaReplicaValidate u = .ok) :
+    (metaReplicaTest u it).isSome = true ∧ (metaReplicaFlush un f).isSome = true := by
+  refine ⟨?_, ?_⟩
+  · unfold metaReplicaValidate at h
+    by_cases h0 : u = 0
+    · simp [h0] at h
+    · exact safeMod_isSome _ _ h0
+  · unfold metaReplicaFlush
+    by_cases hf : f > 0
+    · have : f ≠ 0 := by omega
+      simp [hf, this]
+    · simp [hf]
+
 /-- whatever `historyFreq` and `outputFreq` are (either may be zero), validating the pair evaluates no remainder by zero; an accepted
     pair is either "no history" or a history frequency that is a multiple of a non-zero output frequency; and every later
     "write the history now?" test is defined. -/
